@@ -1210,12 +1210,71 @@ func (r *c15Run) helpers() {
 	}
 }
 
+// c15Retention: the result of one encode must not change when further messages are
+// encoded (sequences of encodes before any result is consumed): for windows of 2..6
+// consecutive values of a mixed list, all are encoded first and compared with the
+// reference encodings afterwards.
+func c15Retention(c *harness.Ctx) {
+	if c.Shard != 0 {
+		return
+	}
+	type val struct {
+		n *corebgp.Notification
+		o *corebgp.VerifOpen
+	}
+	var vals []val
+	for i := 0; i < 40; i++ {
+		switch i % 4 {
+		case 0:
+			vals = append(vals, val{n: &corebgp.Notification{Code: byte(1 + i%7), Subcode: byte(i), Data: bytes.Repeat([]byte{byte(i)}, i)}})
+		case 1:
+			vals = append(vals, val{o: &corebgp.VerifOpen{Version: 4, ASN: uint16(64512 + i), HoldTime: uint16(i * 3), BGPID: uint32(0x0a000000 + i),
+				Params: [][]corebgp.Capability{{{Code: 65, Value: []byte{0, 0, byte(i), 1}}, {Code: 1, Value: []byte{0, 1, 0, byte(i)}}}}}})
+		case 2:
+			vals = append(vals, val{n: &corebgp.Notification{Code: 6, Subcode: byte(i)}})
+		default:
+			vals = append(vals, val{o: &corebgp.VerifOpen{Version: 4, ASN: 23456, HoldTime: 90, BGPID: uint32(i),
+				Params: [][]corebgp.Capability{{{Code: 65, Value: []byte{0xfa, 0x56, 0xea, byte(i)}}, {Code: 200, Value: bytes.Repeat([]byte{byte(i)}, 3*i)}}}}})
+		}
+	}
+	enc := func(v val) ([]byte, []byte) {
+		if v.n != nil {
+			b, _ := corebgp.VerifEncodeNotification(v.n)
+			return b, wire.Notification(v.n.Code, v.n.Subcode, v.n.Data)
+		}
+		b, _ := corebgp.VerifEncodeOpen(v.o)
+		var caps []wire.Cap
+		for _, cp := range v.o.Params[0] {
+			caps = append(caps, wire.Cap{Code: cp.Code, Value: cp.Value})
+		}
+		return b, wire.Frame(wire.TypeOpen, wire.OpenBody(v.o.Version, v.o.ASN, v.o.HoldTime, v.o.BGPID, wire.CapParam(caps...)))
+	}
+	for win := 2; win <= 6; win++ {
+		for start := 0; start+win <= len(vals); start++ {
+			var got, want [][]byte
+			for _, v := range vals[start : start+win] {
+				g, w := enc(v)
+				got, want = append(got, g), append(want, w)
+			}
+			c.Eval([]byte(fmt.Sprintf("retention/%d/%d", win, start)), true)
+			for i := range got {
+				if !bytes.Equal(got[i], want[i]) {
+					c.Violation("encode-result-changed", "C15:codec:encode-result-not-stable", fmt.Sprintf("the bytes returned by encode #%d of a sequence of %d encodes changed after later encodes (now %x.., reference %x..): decode(encode(x)) no longer yields x", i+1, win, trunc(got[i]), trunc(want[i])),
+						map[string]any{"retention_window": win, "start": start})
+					return
+				}
+			}
+		}
+	}
+}
+
 func c15Check(c *harness.Ctx) {
 	r := &c15Run{c: c, classes: map[[2]string]int{}, sampled: map[string]bool{}}
 	r.notifications()
 	r.openValues()
 	r.openBytes()
 	r.helpers()
+	c15Retention(c)
 	for k, n := range r.classes {
 		c.Res.Extra[k[0]+":"+k[1]] = float64(n)
 	}
